@@ -41,6 +41,41 @@ pub struct Conc {
     pub variant: u64,
     pub certs: BTreeMap<String, CertData>,
     addrs: Vec<(&'static str, SocketAddr)>,
+    /// stored certificate text -> spelling token, for every (certificate, spelling) but the standard one
+    spelled: BTreeMap<String, &'static str>,
+}
+
+/// The spellings of spec/ConfigState.tla (AltSpellings, BadSpellings): other ways of writing the same PEM text.
+pub const ALT_SPELLINGS: [&str; 6] = ["old", "tru", "crlf", "lead", "bundle", "wrap"];
+pub const BAD_SPELLINGS: [&str; 2] = ["noend", "indent"];
+
+/// `pem` written another way. Derived from the text alone (re-labelling / re-wrapping), nothing is generated:
+///   old / tru  the block is labelled `X509 CERTIFICATE` (OpenSSL's PEM_STRING_X509_OLD) / `TRUSTED CERTIFICATE`
+///   crlf       CRLF line ends            lead    text before the block (`openssl x509 -text` style) and after it
+///   bundle     a second block follows    wrap    the base64 body wrapped at 76 columns instead of 64
+///   noend      the END line is missing   indent  the base64 lines are indented (neither is readable)
+pub fn respell(pem: &str, sp: &str, other: &str) -> String {
+    let relabel = |l: &str| pem.replace("-----BEGIN CERTIFICATE-----", &format!("-----BEGIN {l}-----"))
+        .replace("-----END CERTIFICATE-----", &format!("-----END {l}-----"));
+    let is_armour = |l: &str| l.starts_with("-----");
+    match sp {
+        "old" => relabel("X509 CERTIFICATE"),
+        "tru" => relabel("TRUSTED CERTIFICATE"),
+        "crlf" => pem.replace("\r\n", "\n").replace('\n', "\r\n"),
+        "lead" => format!("Certificate:\n    Data:\n        Version: 3 (0x2)\n    Signature Algorithm: sha256WithRSAEncryption\nsubject=CN = spelled\n\n{pem}\nend of file, nothing follows\n"),
+        "bundle" => format!("{}\n{}", pem.trim_end(), other),
+        "wrap" => {
+            let body: String = pem.lines().filter(|l| !is_armour(l)).map(|l| l.trim()).collect();
+            let mut out = String::new();
+            for l in pem.lines().filter(|l| l.starts_with("-----BEGIN")).take(1) { out.push_str(l); out.push('\n'); }
+            for chunk in body.as_bytes().chunks(76) { out.push_str(std::str::from_utf8(chunk).unwrap()); out.push('\n'); }
+            for l in pem.lines().filter(|l| l.starts_with("-----END")).take(1) { out.push_str(l); out.push('\n'); }
+            out
+        }
+        "noend" => pem.lines().filter(|l| !l.starts_with("-----END")).map(|l| format!("{l}\n")).collect(),
+        "indent" => pem.lines().map(|l| if is_armour(l) { format!("{l}\n") } else { format!("  {l}\n") }).collect(),
+        _ => pem.to_string(),
+    }
 }
 
 const OVERRIDE_NAME: &str = "override.example.com";
@@ -87,7 +122,35 @@ impl Conc {
             ("x1", p("10.0.0.1:9000", "[fd00::1]:9000")),
             ("x2", p("10.0.0.2:9000", "[fd00::2]:9000")),
         ];
-        Conc { variant, certs, addrs }
+        let mut spelled = BTreeMap::new();
+        let other = certs["k3"].pem.clone();
+        for (k, c) in &certs {
+            for sp in ALT_SPELLINGS.iter().chain(BAD_SPELLINGS.iter()) {
+                let text = respell(&c.pem, sp, &other);
+                if k != "kb" && text != c.pem {
+                    spelled.insert(text, *sp);
+                }
+            }
+        }
+        Conc { variant, certs, addrs, spelled }
+    }
+
+    /// the text of certificate `k` in spelling `sp` ("" / "std": as the asset has it)
+    pub fn cert_text(&self, k: &str, sp: &str) -> String {
+        // "kb" (no PEM block at all) has no spellings: next to a readable block it would be that block's leading text
+        if k == "kb" { return self.certs[k].pem.clone(); }
+        respell(&self.certs[k].pem, sp, &self.certs["k3"].pem)
+    }
+    /// the spelling a command should name for certificate `k`: None when the text comes out as the standard one
+    pub fn effective_spelling<'a>(&self, k: &str, sp: &'a str) -> Option<&'a str> {
+        if sp.is_empty() || sp == "std" || self.cert_text(k, sp) == self.certs[k].pem { None } else { Some(sp) }
+    }
+    /// spelling token of a stored certificate text (None: the standard spelling, or a text never sent)
+    pub fn spelling_tok(&self, k: &str, text: &str) -> Option<String> {
+        match self.certs.get(k) {
+            Some(c) if c.pem == text => None,
+            _ => Some(self.spelled.get(text).map(|s| s.to_string()).unwrap_or_else(|| format!("unknown-text:{}", text.len()))),
+        }
     }
 
     /// bind an address token to a concrete address (worker legs use free local ports)
@@ -197,12 +260,13 @@ impl Conc {
     fn fp_tok(&self, hexfp: &str) -> String {
         self.certs.iter().find(|(_, c)| c.fp_hex == hexfp).map(|(k, _)| k.clone()).unwrap_or_else(|| hexfp.to_string())
     }
-    fn cert(&self, k: &str, names: &Value) -> CertificateAndKey {
+    fn cert(&self, k: &str, names: &Value, sp: &str) -> CertificateAndKey {
         let c = &self.certs[k];
         CertificateAndKey {
-            certificate: c.pem.clone(),
+            certificate: self.cert_text(k, sp),
             certificate_chain: if self.variant % 2 == 1 && k == "k1" { vec![c.pem.clone()] } else { vec![] },
-            key: c.key.clone(),
+            // the key is opaque to ConfigState; it travels with the text in the same dress
+            key: match sp { "crlf" => c.key.replace('\n', "\r\n"), "lead" => format!("Private-Key: (2048 bit)\n{}", c.key), _ => c.key.clone() },
             versions: if self.variant % 3 == 2 { vec![4, 5] } else { vec![] },
             names: self.names(names),
         }
@@ -328,7 +392,14 @@ impl Conc {
         match tok {
             "none" => None,
             "h1" => Some(HealthCheckConfig { uri: "/health".into(), ..Default::default() }),
-            "h2" => Some(HealthCheckConfig { uri: "/ready".into(), interval: 7, expected_status: 204, ..Default::default() }),
+            // valid configurations at the edge of what validate_health_check_config lets through, one per variant
+            "h2" => Some(match self.variant % 3 {
+                0 => HealthCheckConfig { uri: "/ready".into(), interval: 7, expected_status: 204, ..Default::default() },
+                1 => HealthCheckConfig { uri: "/ready?probe=1&sp=%20#frag".into(), interval: 1, timeout: 1, healthy_threshold: 1,
+                                         unhealthy_threshold: 1, expected_status: 0 },
+                _ => HealthCheckConfig { uri: "/ready\t;\u{e9}\u{7f}".into(), interval: u32::MAX, timeout: u32::MAX,
+                                         healthy_threshold: u32::MAX, unhealthy_threshold: u32::MAX, expected_status: u32::MAX },
+            }),
             _ => Some(match self.variant % 3 {
                 0 => HealthCheckConfig { uri: "no-leading-slash".into(), ..Default::default() },
                 1 => HealthCheckConfig { uri: "/x".into(), interval: 0, ..Default::default() },
@@ -340,7 +411,7 @@ impl Conc {
         match h {
             None => "none".into(),
             Some(c) if c.uri == "/health" => "h1".into(),
-            Some(c) if c.uri == "/ready" => "h2".into(),
+            Some(c) if c.uri.starts_with("/ready") => "h2".into(),
             Some(c) => format!("hc:{}", c.uri),
         }
     }
@@ -438,14 +509,14 @@ impl Conc {
             "RemoveHttpsFrontend" => RequestType::RemoveHttpsFrontend(self.http_front(&c["f"])),
             "AddCertificate" => RequestType::AddCertificate(AddCertificate {
                 address: self.saddr(&c["a"]),
-                certificate: self.cert(s(&c["k"]), &c["n"]),
+                certificate: self.cert(s(&c["k"]), &c["n"], s(&c["sp"])),
                 expired_at: if self.variant % 2 == 1 { Some(1_900_000_000) } else { None },
             }),
             "RemoveCertificate" => RequestType::RemoveCertificate(RemoveCertificate {
                 address: self.saddr(&c["a"]), fingerprint: self.fp_hex(s(&c["fp"])) }),
             "ReplaceCertificate" => RequestType::ReplaceCertificate(ReplaceCertificate {
                 address: self.saddr(&c["a"]),
-                new_certificate: self.cert(s(&c["k"]), &c["n"]),
+                new_certificate: self.cert(s(&c["k"]), &c["n"], s(&c["sp"])),
                 old_fingerprint: self.fp_hex(s(&c["old"])),
                 new_expired_at: None,
             }),
@@ -573,7 +644,12 @@ impl Conc {
         for (a, certs) in &st.certificates {
             cbk.push(json!(self.addr_tok(a)));
             for (fp, c) in certs {
-                let mut v = json!({"a": self.addr_tok(a), "k": self.fp_tok(&fp.to_string()), "n": self.names_tok(&c.names)});
+                let k = self.fp_tok(&fp.to_string());
+                let mut v = json!({"a": self.addr_tok(a), "k": k, "n": self.names_tok(&c.names)});
+                // the text is stored as it was written: its spelling is part of the certificate (absent = standard)
+                if let Some(sp) = self.spelling_tok(&k, &c.certificate) {
+                    v["sp"] = json!(sp);
+                }
                 // the entry must be filed under the fingerprint of its own certificate
                 match calculate_fingerprint(c.certificate.as_bytes()) {
                     Ok(real) if hex::encode(&real) == fp.to_string() => {}
